@@ -972,3 +972,91 @@ def check_C15(history, expectations=None):
                 if r["obj"].split("-")[0] not in selected:
                     out.append(V("C15", "foreign-vm", "an update removed a state of a vm that was not selected", obj=r["obj"]))
     return dedup(out)
+
+
+# --------------------------------------------------------------------------------------------
+# C20
+# --------------------------------------------------------------------------------------------
+
+STATE_STEPS = {"check": "check", "get": "get", "set": "set", "unset": "unset", "push": "push", "pop": "pop",
+               "create": "set", "collect": "get", "clean": "unset"}
+MANAGE_STEPS = {"boot": "boot", "shutdown": "shutdown", "download": "download", "upload": "upload", "control": "run"}
+
+
+def check_C20(history, compatible=None):
+    out = []
+    scen = history["scenario"]
+    ending = history["endings"][0]
+    events = history["events"]
+    chain = scen["chain"]
+    selected = scen["selected_vms"]
+    workers = scen["nets"].split()
+    if ending["how"] != "completed":
+        out.append(V("C20", "chain-failed", f"the setup chain did not complete ({ending['how']}): {strip_ids(ending.get('error') or '')[:120]}",
+                     error=ending.get("error"), traceback=ending.get("traceback")))
+        return out
+    # split the events by job (one job per step that uses a job)
+    jobs, cur = [], None
+    for ev in events:
+        if ev["kind"] == "job.begin":
+            cur = []
+        elif ev["kind"] == "job.end":
+            jobs.append(cur)
+            cur = None
+        elif cur is not None:
+            cur.append(ev)
+    steps_with_job = [s_ for s_ in chain if s_ != "noop"]
+    if len(jobs) != len(steps_with_job):
+        out.append(V("C20", "steps-skipped", "not every step of the chain was performed", chain=chain, jobs=len(jobs)))
+        return out
+    any_failed = False
+    for step, evs in zip(steps_with_job, jobs):
+        execs = executions(evs)
+        action = STATE_STEPS.get(step) or MANAGE_STEPS.get(step)
+        for ex in execs:
+            st = ex["start"]
+            got_action = st.get("step_params", {}).get("vm_action")
+            if got_action != action:
+                out.append(V("C20", "wrong-step", f"an execution of step {step} carries another action", step=step,
+                             action=got_action, label=st["label"]))
+            if not set(st["vms"].split()) <= set(selected):
+                out.append(V("C20", "unselected-vm", f"step {step} acted on a vm that was not selected", vms=st["vms"]))
+        per = {}
+        for ex in execs:
+            per.setdefault((ex["start"]["worker"], ex["start"]["vms"]), []).append(ex)
+        if step in STATE_STEPS:
+            want = {(w, vm) for w in workers for vm in selected if (compatible is None or compatible.get(w, {}).get(vm, True))}
+        else:
+            want = {(w, " ".join(selected)) for w in workers
+                    if compatible is None or all(compatible.get(w, {}).get(vm, True) for vm in selected)}
+        got = set(per)
+        if got != want:
+            missing, extra = sorted(want - got), sorted(got - want)
+            out.append(V("C20", "wrong-coverage",
+                         f"step {step} " + ("skipped a selected vm on a compatible worker" if missing else "ran for an unexpected vm or worker"),
+                         step=step, missing=missing, extra=extra))
+        for key, group in per.items():
+            if len(group) > 1:
+                out.append(V("C20", "repeated-step", f"step {step} was executed more than once for one vm and worker", step=step,
+                             worker=key[0], vms=key[1], n=len(group)))
+        # the step's parameters are applied
+        for key_, value in scen.get("step_params", {}).items():
+            if not key_.startswith(step + "_"):
+                continue  # create/collect/clean set their own state parameters by design
+            for ex in execs:
+                sp = ex["start"].get("step_params", {})
+                if key_ in sp and sp[key_] != value:
+                    out.append(V("C20", "parameter-lost", f"step {step} was executed without the parameter given for it", key=key_,
+                                 want=value, got=sp.get(key_)))
+        # outcome of the step
+        by_name = {}
+        for ex in execs:
+            if ex["end"] is not None and not ex["end"].get("lost"):
+                by_name.setdefault(ex["start"]["name"], []).append(ex["status"])
+        if any(not any(OK_STATUS.get(s_, False) for s_ in sts) for sts in by_name.values()):
+            any_failed = True
+    want_ret = 1 if any_failed else 0
+    if ending.get("retval") != want_ret:
+        out.append(V("C20", "wrong-return-code", "the chain's return code does not reflect whether a step failed",
+                     retval=ending.get("retval"), expected=want_ret))
+    return dedup(out)
